@@ -533,7 +533,7 @@ func Update(ctx context.Context, scope *ReferenceScope, query parser.UpdateQuery
 				viewsToUpdate[fpath], _ = queryScope.GetTemporaryTable(parser.Identifier{Literal: fpath.Path})
 			} else {
 				viewsToUpdate[fpath], err = queryScope.Tx.CachedViews.Get(fpath.Path)
-				if err != nil {
+				if err != nil || !viewsToUpdate[fpath].IsUpdatable() {
 					return nil, nil, NewInlineTableCannotBeUpdatedError(table.Object)
 				}
 			}
@@ -756,7 +756,7 @@ func Delete(ctx context.Context, scope *ReferenceScope, query parser.DeleteQuery
 			viewsToDelete[fpath], _ = queryScope.GetTemporaryTable(parser.Identifier{Literal: fpath.Path})
 		} else {
 			viewsToDelete[fpath], err = queryScope.Tx.CachedViews.Get(fpath.Path)
-			if err != nil {
+			if err != nil || !viewsToDelete[fpath].IsUpdatable() {
 				return nil, nil, NewInlineTableCannotBeUpdatedError(table.Object)
 			}
 		}
@@ -1102,6 +1102,9 @@ func SetTableAttribute(ctx context.Context, scope *ReferenceScope, query parser.
 	}
 	if !view.FileInfo.IsFile() {
 		return nil, log, NewNotTableError(query.Table)
+	}
+	if !view.IsUpdatable() {
+		return nil, log, NewInlineTableCannotBeUpdatedError(query.Table)
 	}
 
 	var p value.Primary
